@@ -62,13 +62,40 @@ fn valid_request() -> Vec<u8> {
     )
 }
 
+static OUT_PATH: std::sync::OnceLock<String> = std::sync::OnceLock::new();
+static FAILED_IN_A_ROW: std::sync::atomic::AtomicU32 = std::sync::atomic::AtomicU32::new(0);
+
+/// Three failed health checks in a row: the server is gone or wedged.  That is the finding; going on with
+/// the campaign would only add a ten-second timeout per remaining fault.  Write what was recorded and stop.
+fn stop_if_dead(ok: bool) {
+    use std::sync::atomic::Ordering;
+    if ok {
+        FAILED_IN_A_ROW.store(0, Ordering::SeqCst);
+        return;
+    }
+    if FAILED_IN_A_ROW.fetch_add(1, Ordering::SeqCst) + 1 >= 3 {
+        emit("campaign_stopped", json!({"why": "three health checks in a row failed"}));
+        let lines = dropshot::verif::take_memory();
+        std::fs::write(OUT_PATH.get().expect("out path"), lines.join("\n") + "\n").unwrap();
+        println!("{}", json!({"events": lines.len(), "stopped": true}));
+        std::process::exit(0);
+    }
+}
+
 async fn health(addr: std::net::SocketAddr) {
     let req = httpc::build_request("GET", "/health", &[], None);
-    match httpc::oneshot(addr, &req, false, Duration::from_secs(10)).await {
-        Ok(r) => emit("health", json!({"ok": r.wellformed && r.status == 200 && r.body == b"\"ok\"", "status": r.status,
-            "problem": r.problem})),
-        Err(e) => emit("health", json!({"ok": false, "status": 0, "problem": e})),
-    }
+    let ok = match httpc::oneshot(addr, &req, false, Duration::from_secs(10)).await {
+        Ok(r) => {
+            let ok = r.wellformed && r.status == 200 && r.body == b"\"ok\"";
+            emit("health", json!({"ok": ok, "status": r.status, "problem": r.problem}));
+            ok
+        }
+        Err(e) => {
+            emit("health", json!({"ok": false, "status": 0, "problem": e}));
+            false
+        }
+    };
+    stop_if_dead(ok);
 }
 
 /// Send `bytes` on a fresh connection, end it (`fin`, `rst`) or leave it open (`hold`), report what came back.
@@ -126,6 +153,7 @@ fn main() {
     let args: Vec<String> = std::env::args().collect();
     let thorough = args[1] == "thorough";
     let out = args[2].clone();
+    let _ = OUT_PATH.set(out.clone());
     quiet_panics();
     dropshot::verif::install_memory_sink();
     let seed = seed_from_env();
@@ -342,9 +370,18 @@ fn main() {
                 Ok::<_, String>(rd.read_response(&mut tls, false, Duration::from_secs(10)).await)
             };
             match tokio::time::timeout(Duration::from_secs(10), attempt).await {
-                Ok(Ok(r)) => emit("health", json!({"ok": r.wellformed && r.status == 200, "status": r.status, "problem": r.problem, "tls": true})),
-                Ok(Err(e)) => emit("health", json!({"ok": false, "status": 0, "problem": e, "tls": true})),
-                Err(_) => emit("health", json!({"ok": false, "status": 0, "problem": "timeout", "tls": true})),
+                Ok(Ok(r)) => {
+                    emit("health", json!({"ok": r.wellformed && r.status == 200, "status": r.status, "problem": r.problem, "tls": true}));
+                    stop_if_dead(r.wellformed && r.status == 200);
+                }
+                Ok(Err(e)) => {
+                    emit("health", json!({"ok": false, "status": 0, "problem": e, "tls": true}));
+                    stop_if_dead(false);
+                }
+                Err(_) => {
+                    emit("health", json!({"ok": false, "status": 0, "problem": "timeout", "tls": true}));
+                    stop_if_dead(false);
+                }
             }
         };
         tls_health(connector.clone()).await;
